@@ -3,6 +3,7 @@
 From Coq Require Import List ZArith NArith Bool.
 From RRSS Require Import Base.Outcome Base.Chars Base.F64 Base.F64Text Exec.Val Exec.Ops Front.Ast Exec.Env Exec.Interp.
 From RRSS Require Import Proofs.ValTables Proofs.ValLaws Proofs.InterpPure.
+From RRSS Require Import Proofs.ValValid.
 Import ListNotations.
 
 (** the model of val.rs (written as the Rust is, with its argument-swapping recursion) computes
@@ -96,6 +97,16 @@ Theorem C03_call_free_expressions_have_no_effect_on_error :
   scopes e' = scopes e /\ chan e' = chan e /\ steps e' = steps e /\ depth e' = depth e.
 Proof. exact pure_expr_frame_err. Qed.
 
+(** arithmetic never leaves binary64: from operands whose numbers are binary64 data (53-bit mantissa, exponent in
+    range) every operation yields binary64 data — so the float model is only ever applied inside its domain *)
+Theorem C03_arithmetic_stays_binary64 :
+  forall a b, nv a -> nv b ->
+  nv (v_plus a b) /\ nv (v_subtract a b) /\ nv (v_divide a b) /\ nvr (v_multiply a b) /\ nvr (v_negate a) /\
+  (forall k, nvr (v_inc a k)) /\ nvr (v_round_up a) /\ nvr (v_round_down a) /\ nvr (v_round_nearest a) /\
+  (forall p, nvr (v_cast a p)) /\ nv (v_decay a).
+Proof. exact arithmetic_stays_binary64. Qed.
+
 Print Assumptions C03_equals_table.
 Print Assumptions C03_compare_table.
 Print Assumptions C03_call_free_expressions_have_no_effect.
+Print Assumptions C03_arithmetic_stays_binary64.
